@@ -5,6 +5,7 @@
 From Coq Require Import List ZArith NArith Bool Arith Lia.
 From Coq Require Import Permutation.
 From SV Require Import Model.Cep Spec.CepSpec Proofs.CepProofs Proofs.CepSugar Proofs.CepChecker.
+From SV Require Import Model.CepLab Spec.CepLabSpec Proofs.CepLabProofs.
 Import ListNotations.
 
 (* Brzozowski derivatives decide the pattern language, for every pattern and every word *)
@@ -140,4 +141,66 @@ Example C15_asis_witnesses :
           [mkCRow 1 0 0 1; mkCRow 2 0 1 2; mkCRow 3 0 2 10; mkCRow 4 3 0 11] [(1, 3%Z, 3%Z, 1)] = Some ClOmitted
   /\ chk_C15 (mkCfg (desugar (SAlt (SSeq (SSeq (SLit 0) (SLit 1)) (SLit 2)) (SLit 1))) ex_defs4 SkPast 3600000000000)
           [mkCRow 1 0 0 1; mkCRow 2 1 1 2; mkCRow 3 2 2 3] [(1, 2%Z, 2%Z, 1)] = Some ClOmitted.
+Proof. repeat split; vm_compute; reflexivity. Qed.
+
+(* ------------------------------------------------------------------ labelled runs (Model/CepLab.v)
+   The engine carries the classification of a run (which variable consumed which row); DEFINE
+   conditions may read it (v > AVG(A.v), COUNT(A.v) <= k, v > A.v ..), MEASURES and SKIP TO FIRST/LAST X
+   read it. [lvalid c seg w]: the rows seg labelled w are a valid match: w is a word of PATTERN, every
+   row satisfies the DEFINE of ITS label against the labelled rows before it, all within WITHIN. *)
+
+Theorem C15_lab_valid_decided : forall c seg w, lvalid_b c seg w = true <-> lvalid c seg w.
+Proof. exact lvalid_b_iff. Qed.
+Print Assumptions C15_lab_valid_decided.
+
+(* the reference over ALL classifications: the first m rows carry a valid classification and no
+   classification makes a longer run starting at the same row a valid match ... *)
+Theorem C15_lab_longest : forall c l m, llongest_at c l = Some m ->
+  1 <= m <= length l /\ (exists w, lvalid c (firstn m l) w)
+  /\ forall k w, m < k <= length l -> ~ lvalid c (firstn k l) w.
+Proof. exact llongest_at_some. Qed.
+Print Assumptions C15_lab_longest.
+
+(* ... and when it finds none, no run starting at that row is a valid match under any classification *)
+Theorem C15_lab_none : forall c l, llongest_at c l = None -> forall k w, ~ lvalid c (firstn k l) w.
+Proof. exact llongest_at_none. Qed.
+Print Assumptions C15_lab_none.
+
+(* conservative: without conditions over the classification the labelled reference is the
+   derivative reference of Model/Cep.v (all theorems above apply to it) *)
+Theorem C15_lab_conservative : forall c l, no_agg c -> llongest_at c l = longest_at (base_cfg c) l.
+Proof. exact llongest_at_conservative. Qed.
+Print Assumptions C15_lab_conservative.
+
+(* the extracted checker for reports that expose the label of every row is silent exactly when the
+   report is exact: every match valid under ITS labels, longest over all classifications, starts
+   leftmost-first with the next allowed start computed from ITS labels (SKIP TO FIRST/LAST X), nothing
+   omitted up to the end of the stream, MATCH_NUMBER 1,2,3.. *)
+Theorem C15_lab_checker_iff : forall c rows out,
+  chk_C15L c rows out = None <->
+  exists ms, llocate_all rows out = Some ms /\ lexact c rows 0 ms /\ numbered 1 (map fst out) = true.
+Proof. exact chk_C15L_iff. Qed.
+Print Assumptions C15_lab_checker_iff.
+
+(* non-vacuity and the two shapes of a classification mixed up between sibling runs.
+   PATTERN (A+ B), A: class 0 or 1, B: class 0; twelve rows of class 0 then one of class 4: the only
+   valid classification of rows 1..12 is A x11, B; a report labelled A A A B A A A B A B B B is no word.
+   PATTERN (A+ B), A: class 0, B: v > AVG(A.v) on v = 1 1 1 5 2 0: rows 1..4 (A A A B) is the longest
+   match; rows 1..5 is valid under no classification. *)
+Definition exl_rows12 : list crow :=
+  map (fun i => mkCRow (Z.of_nat i) 0 (Z.of_nat (i mod 10)) (Z.of_nat i)) (seq 1 12) ++ [mkCRow 13 4 0 13].
+Definition exl_cfg1 : lcfg :=
+  mkLCfg (desugar (SSeq (SRep 1 None (SLit 0)) (SLit 1))) [mkADef (mkDef 3 0) 0 0 0; mkADef (mkDef 1 0) 0 0 0] SkPast 3600000000000.
+Definition exl_cfg2 : lcfg :=
+  mkLCfg (desugar (SSeq (SRep 1 None (SLit 0)) (SLit 1))) [mkADef (mkDef 1 0) 0 0 0; mkADef (mkDef 31 0) 1 0 0] SkPast 3600000000000.
+Definition exl_rows6 : list crow :=
+  [mkCRow 1 0 1 1; mkCRow 2 0 1 2; mkCRow 3 0 1 3; mkCRow 4 0 5 4; mkCRow 5 0 2 5; mkCRow 6 4 0 6].
+Example C15_lab_example :
+  llongest_at exl_cfg1 exl_rows12 = Some 12
+  /\ chk_C15L exl_cfg1 exl_rows12 [((1, 1%Z, 12%Z, 12), [0;0;0;0;0;0;0;0;0;0;0;1]%N)] = None
+  /\ chk_C15L exl_cfg1 exl_rows12 [((1, 1%Z, 12%Z, 12), [0;0;0;1;0;0;0;1;0;1;1;1]%N)] = Some ClValid
+  /\ llongest_at exl_cfg2 exl_rows6 = Some 4
+  /\ chk_C15L exl_cfg2 exl_rows6 [((1, 1%Z, 4%Z, 4), [0;0;0;1]%N)] = None
+  /\ chk_C15L exl_cfg2 exl_rows6 [((1, 1%Z, 5%Z, 5), [0;0;0;0;1]%N)] = Some ClValid
+  /\ lmeas_ok (firstn 4 exl_rows6) [0;0;0;1]%N 1%N [(3, 3, 1, 3, 3)%Z; (1, 5, 4, 4, 4)%Z] = true.
 Proof. repeat split; vm_compute; reflexivity. Qed.
